@@ -105,8 +105,10 @@ pub fn check(_ctx: &Ctx, input: &Input) -> CaseResult {
     };
     // survival must not depend on configuration either: the second pair of
     // passes preserves the code transform (raw sections ignore it)
-    for (do_gc, code_transform) in [(false, false), (true, false), (false, true), (true, true)] {
-        let cfg = wal::Cfg { code_transform, ..wal::Cfg::plain() }.to_config();
+    // ... and the last pair switches the name and producers sections off
+    for (do_gc, code_transform, bare) in [(false, false, false), (true, false, false), (false, true, false), (true, true, false), (false, false, true), (true, false, true)] {
+        let base = if bare { wal::Cfg::bare() } else { wal::Cfg::plain() };
+        let cfg = wal::Cfg { code_transform, ..base }.to_config();
         let mut m = match wal::parse(&p.bytes, &cfg) {
             Ok(Ok(m)) => m,
             _ => {
